@@ -20,6 +20,12 @@ logging.disable(logging.CRITICAL)
 EPOCH = 1700000000.0
 
 
+class WallOffset(object):
+    """Steps of the wall clock (NTP step, operator setting the date, VM restored from a snapshot): added to
+    what yabgp reads as time.time(); the reactor's own (monotonic) time base is not affected."""
+    v = 0.0
+
+
 class Clock(object):
     """What yabgp modules see as the ``time`` module."""
 
@@ -35,8 +41,8 @@ class Clock(object):
             # strictly increasing micro-tick: two file names created at one virtual instant
             # differ, as they would on a real clock.
             self.n += 1
-            return round(EPOCH + now + self.n * 1e-6, 6)
-        return EPOCH + now
+            return round(EPOCH + WallOffset.v + now + self.n * 1e-6, 6)
+        return EPOCH + WallOffset.v + now
 
     def sleep(self, s):
         raise RuntimeError("real sleep inside the simulation")
